@@ -31,10 +31,13 @@ type Cfg struct {
 	Reg  []string            `json:"reg"`
 	Late []string            `json:"late"`
 	Deps map[string][]string `json:"deps"`
-	Beh  map[string][]string `json:"beh"`
+	Beh  map[string][]string `json:"beh"`  // behaviours of the initial expressions of set 1
+	Beh2 map[string][]string `json:"beh2"` // ... of set 2
+	Rb   map[string]string   `json:"rb"`   // behaviour of the root expression itself
 }
 
-// Entry is one callback <<phase, root, set, index>>, marshalled as a JSON array.
+// Entry is one callback <<phase, root, set, index>> (or one error <<tag, root, set, index>>),
+// marshalled as a JSON array.
 type Entry struct {
 	Phase string
 	Root  string
@@ -57,30 +60,27 @@ type Obs struct {
 
 type run struct {
 	cfg        Cfg
-	roots      map[string]*root
+	roots      map[string]eval.Root
+	nodes      map[string]*node
 	registered map[string]bool
 	log        []Entry
 }
 
-type root struct {
+// node is the state shared by the two root types.
+type node struct {
 	run  *run
 	name string
+	beh  string
 	sets [2][]eval.Expression
-}
-
-type expr struct {
-	root     *root
-	set, idx int
-	beh      string
 }
 
 func (c *run) rec(phase, rootName string, set, idx int) {
 	c.log = append(c.log, Entry{phase, rootName, set, idx})
 }
 
-func (r *root) EvalName() string   { return "root:" + r.name }
-func (r *root) Packages() []string { return nil }
-func (r *root) DependsOn() []eval.Root {
+func (r *node) EvalName() string   { return "root:" + r.name }
+func (r *node) Packages() []string { return nil }
+func (r *node) DependsOn() []eval.Root {
 	var ds []eval.Root
 	for _, d := range r.run.cfg.Deps[r.name] {
 		ds = append(ds, r.run.roots[d])
@@ -90,30 +90,71 @@ func (r *root) DependsOn() []eval.Root {
 
 // WalkSets hands the engine set 1 then set 2; each set is read when it is handed over, like
 // goa's own roots, which build the later sets from what the earlier ones produced.
-func (r *root) WalkSets(walk eval.SetWalker) {
+func (r *node) WalkSets(walk eval.SetWalker) {
 	walk(eval.ExpressionSet(r.sets[0]))
 	walk(eval.ExpressionSet(r.sets[1]))
 }
-func (r *root) Prepare()        { r.run.rec("prepare", r.name, 0, 0) }
-func (r *root) Validate() error { r.run.rec("validate", r.name, 0, 0); return nil }
-func (r *root) Finalize()       { r.run.rec("finalize", r.name, 0, 0) }
 
-func (r *root) add(set int, beh string) {
-	r.sets[set-1] = append(r.sets[set-1], &expr{root: r, set: set, idx: len(r.sets[set-1]) + 1, beh: beh})
+func (r *node) add(set int, beh string) {
+	idx := len(r.sets[set-1]) + 1
+	r.sets[set-1] = append(r.sets[set-1], newExpr(&core{root: r, set: set, idx: idx, beh: beh}))
 }
 
-func (e *expr) id() string       { return fmt.Sprintf("%s:%d:%d", e.root.name, e.set, e.idx) }
-func (e *expr) EvalName() string { return "x:" + e.id() }
-func (e *expr) DSL() func() {
+// rootBare is a root that is neither Preparer nor Validator nor Finalizer ("bare");
+// rootPVF is all three, its callbacks behave like those of an expression.
+type (
+	rootBare struct{ *node }
+	rootPVF  struct {
+		*node
+		c *core
+	}
+)
+
+func (r rootPVF) Prepare()        { r.c.prepare() }
+func (r rootPVF) Validate() error { return r.c.validate() }
+func (r rootPVF) Finalize()       { r.c.finalize() }
+
+func newRoot(c *run, name, beh string) (eval.Root, *node) {
+	n := &node{run: c, name: name, beh: beh}
+	if beh == "bare" {
+		return rootBare{n}, n
+	}
+	r := rootPVF{node: n, c: &core{root: n, set: 0, idx: 0, beh: beh}}
+	r.c.self = r
+	return r, n
+}
+
+// core holds what every expression does when the engine calls it; the expression types below
+// expose it under the interfaces their behaviour implements (Eval.tla Ifc).
+type core struct {
+	root     *node
+	set, idx int
+	beh      string
+	self     eval.Expression
+}
+
+func (e *core) id() string       { return fmt.Sprintf("%s:%d:%d", e.root.name, e.set, e.idx) }
+func (e *core) EvalName() string { return "x:" + e.id() }
+
+// what the behaviour does in a phase: its suffix after the interface prefix
+func (e *core) does(what string) bool {
+	b := e.beh
+	if i := strings.IndexByte(b, '-'); i >= 0 {
+		b = b[i+1:]
+	}
+	return b == what
+}
+
+func (e *core) dsl() func() {
 	return func() {
 		c := e.root.run
 		c.rec("dsl", e.root.name, e.set, e.idx)
-		switch e.beh {
-		case "append":
+		switch {
+		case e.does("append"):
 			e.root.add(2, "plain")
-		case "appendsame":
+		case e.does("appendsame"):
 			e.root.add(1, "plain")
-		case "reg":
+		case e.does("reg"):
 			for _, l := range c.cfg.Late {
 				if !c.registered[l] {
 					c.registered[l] = true
@@ -123,26 +164,108 @@ func (e *expr) DSL() func() {
 					break
 				}
 			}
-		case "err":
+		case e.does("err"):
 			eval.ReportError("E:%s", e.id())
 		}
 	}
 }
-func (e *expr) Prepare() { e.root.run.rec("prepare", e.root.name, e.set, e.idx) }
-func (e *expr) Validate() error {
+
+func (e *core) prepare() {
+	e.root.run.rec("prepare", e.root.name, e.set, e.idx)
+	if e.does("perr") {
+		eval.ReportError("P:%s", e.id())
+	}
+}
+
+func (e *core) validate() error {
 	e.root.run.rec("validate", e.root.name, e.set, e.idx)
-	if e.beh == "verr" {
+	switch {
+	case e.does("verr"):
 		verr := new(eval.ValidationErrors)
-		verr.Add(e, "V:%s", e.id())
+		verr.Add(e.self, "V:%s", e.id())
+		return verr
+	case e.does("vrec"):
+		eval.Context.Record(&eval.Error{GoError: fmt.Errorf("R:%s", e.id())})
+	case e.does("vboth"):
+		eval.ReportError("R:%s", e.id())
+		verr := new(eval.ValidationErrors)
+		verr.Add(e.self, "V:%s", e.id())
+		return verr
+	case e.does("vempty"):
+		return new(eval.ValidationErrors)
+	case e.does("vnil"):
+		var verr *eval.ValidationErrors
 		return verr
 	}
 	return nil
 }
-func (e *expr) Finalize() { e.root.run.rec("finalize", e.root.name, e.set, e.idx) }
+
+func (e *core) finalize() {
+	e.root.run.rec("finalize", e.root.name, e.set, e.idx)
+	if e.does("ferr") {
+		eval.ReportError("F:%s", e.id())
+	}
+}
+
+// the expression types: one per set of interfaces
+type (
+	exprFull struct{ *core } // Source + Preparer + Validator + Finalizer
+	exprS    struct{ *core } // Source
+	exprPVF  struct{ *core } // Preparer + Validator + Finalizer
+	exprV    struct{ *core } // Validator
+	exprP    struct{ *core } // Preparer
+	exprF    struct{ *core } // Finalizer
+)
+
+func (e exprFull) DSL() func()     { return e.dsl() }
+func (e exprFull) Prepare()        { e.prepare() }
+func (e exprFull) Validate() error { return e.validate() }
+func (e exprFull) Finalize()       { e.finalize() }
+func (e exprS) DSL() func()        { return e.dsl() }
+func (e exprPVF) Prepare()         { e.prepare() }
+func (e exprPVF) Validate() error  { return e.validate() }
+func (e exprPVF) Finalize()        { e.finalize() }
+func (e exprV) Validate() error    { return e.validate() }
+func (e exprP) Prepare()           { e.prepare() }
+func (e exprF) Finalize()          { e.finalize() }
+
+var fullToks = map[string]bool{"plain": true, "append": true, "appendsame": true, "reg": true, "err": true, "verr": true,
+	"perr": true, "vrec": true, "vboth": true, "vempty": true, "vnil": true, "ferr": true}
+var otherToks = map[string]bool{"s": true, "s-err": true, "pvf": true, "pvf-perr": true, "pvf-vrec": true, "pvf-verr": true,
+	"pvf-ferr": true, "v": true, "v-verr": true, "v-vrec": true, "v-vboth": true, "v-vempty": true, "p-perr": true, "f-ferr": true}
+var rootToks = map[string]bool{"plain": true, "perr": true, "vrec": true, "verr": true, "vboth": true, "vempty": true,
+	"vnil": true, "ferr": true, "bare": true}
+
+func newExpr(c *core) eval.Expression {
+	var x eval.Expression
+	switch {
+	case c.beh == "nil":
+		return nil // a nil entry of the set
+	case fullToks[c.beh]:
+		x = exprFull{c}
+	case !otherToks[c.beh]:
+		vio.Die("unknown behaviour %q", c.beh)
+	case strings.HasPrefix(c.beh, "pvf"):
+		x = exprPVF{c}
+	case strings.HasPrefix(c.beh, "s"):
+		x = exprS{c}
+	case strings.HasPrefix(c.beh, "v"):
+		x = exprV{c}
+	case strings.HasPrefix(c.beh, "p"):
+		x = exprP{c}
+	case strings.HasPrefix(c.beh, "f"):
+		x = exprF{c}
+	}
+	c.self = x
+	return x
+}
 
 // ---- one case ------------------------------------------------------------------------------
 
-var errTok = regexp.MustCompile(`^([EV]):([a-z]+):(\d+):(\d+)`)
+var errTok = regexp.MustCompile(`^([EPRVF]):([a-z]+):(\d+):(\d+)`)
+
+// the error tags of Eval.tla, from the first letter of the message
+var errTag = map[string]string{"E": "dsl", "P": "prepare", "R": "vrec", "V": "validate", "F": "finalize"}
 
 func token(msg string) Entry {
 	m := errTok.FindStringSubmatch(msg)
@@ -151,29 +274,35 @@ func token(msg string) Entry {
 	}
 	s, _ := strconv.Atoi(m[3])
 	i, _ := strconv.Atoi(m[4])
-	ph := "dsl"
-	if m[1] == "V" {
-		ph = "validate"
-	}
-	return Entry{ph, m[2], s, i}
+	return Entry{errTag[m[1]], m[2], s, i}
 }
 
 func runCase(cfg Cfg) (obs Obs) {
 	eval.Reset()
-	c := &run{cfg: cfg, roots: map[string]*root{}, registered: map[string]bool{}}
+	c := &run{cfg: cfg, roots: map[string]eval.Root{}, nodes: map[string]*node{}, registered: map[string]bool{}}
 	mk := func(n string) {
 		if _, ok := c.roots[n]; ok {
 			return
 		}
-		r := &root{run: c, name: n}
-		bs := cfg.Beh[n]
-		if len(bs) == 0 {
+		rb := cfg.Rb[n]
+		if rb == "" {
+			rb = "plain"
+		}
+		if !rootToks[rb] {
+			vio.Die("unknown root behaviour %q", rb)
+		}
+		r, nd := newRoot(c, n, rb)
+		bs, ok := cfg.Beh[n]
+		if !ok {
 			bs = []string{"plain"}
 		}
 		for _, b := range bs {
-			r.add(1, b)
+			nd.add(1, b)
 		}
-		c.roots[n] = r
+		for _, b := range cfg.Beh2[n] {
+			nd.add(2, b)
+		}
+		c.roots[n], c.nodes[n] = r, nd
 	}
 	for _, n := range cfg.Reg {
 		mk(n)
@@ -211,6 +340,9 @@ func runCase(cfg Cfg) (obs Obs) {
 	switch {
 	case err == nil:
 		obs.Kind = "ok"
+		if n := len(eval.Context.Errors); n > 0 {
+			obs.Text = fmt.Sprintf("RunDSL returned nil with %d recorded error(s) left in eval.Context.Errors", n)
+		}
 	case errors.As(err, &me):
 		obs.Kind = "error"
 		for _, e := range me {
@@ -271,38 +403,57 @@ func randCfg(r *rand.Rand) Cfg {
 	names := append([]string{}, universe[:n]...)
 	r.Shuffle(n, func(i, j int) { names[i], names[j] = names[j], names[i] })
 	nlate := []int{0, 0, 1, 1, 2, 2}[r.Intn(6)]
-	cfg := Cfg{Reg: names[:n-nlate], Late: append([]string{}, names[n-nlate:]...), Deps: map[string][]string{}, Beh: map[string][]string{}}
+	cfg := Cfg{Reg: names[:n-nlate], Late: append([]string{}, names[n-nlate:]...), Deps: map[string][]string{},
+		Beh: map[string][]string{}, Beh2: map[string][]string{}, Rb: map[string]string{}}
 	for _, u := range universe {
 		cfg.Deps[u] = []string{}
 		cfg.Beh[u] = []string{"plain"}
+		cfg.Beh2[u] = []string{}
+		cfg.Rb[u] = "plain"
 	}
 	isLate := map[string]int{}
 	for i, l := range cfg.Late {
 		isLate[l] = i + 1
 	}
+	oneOf := func(ts ...string) string { return ts[r.Intn(len(ts))] }
+	// expressions that report no error but are not the usual Source+Preparer+Validator+Finalizer
+	quiet := func() string { return oneOf("nil", "s", "pvf", "v", "vempty", "v-vempty") }
+	// errors reported after the DSL phase: where (interfaces) and how
+	laterErr := func() string {
+		return oneOf("verr", "verr", "perr", "vrec", "vboth", "ferr", "vnil", "pvf-perr", "pvf-vrec", "pvf-verr", "pvf-ferr",
+			"v-verr", "v-vrec", "v-vboth", "p-perr", "f-ferr")
+	}
 	// behaviours: mostly plain; "reg" only when there is something to register
-	pick := func(late bool) string {
+	pick := func(late bool, set int) string {
 		x := r.Intn(100)
 		switch {
-		case x < 50:
+		case x < 46:
 			return "plain"
-		case x < 60:
-			return "append"
-		case x < 70:
-			return "appendsame"
-		case x < 80:
-			if nlate > 0 && (!late || nlate > 1) {
+		case x < 55:
+			if set == 1 {
+				return "append"
+			}
+			return "plain"
+		case x < 64:
+			if set == 1 {
+				return "appendsame"
+			}
+			return "plain"
+		case x < 73:
+			if set == 1 && nlate > 0 && (!late || nlate > 1) {
 				return "reg"
 			}
 			return "plain"
+		case x < 80:
+			return quiet()
 		case x < 90:
 			if r.Intn(3) == 0 {
-				return "err"
+				return oneOf("err", "err", "s-err")
 			}
 			return "plain"
 		default:
 			if r.Intn(3) == 0 {
-				return "verr"
+				return laterErr()
 			}
 			return "plain"
 		}
@@ -310,17 +461,40 @@ func randCfg(r *rand.Rand) Cfg {
 	k0 := 0
 	for _, nm := range names[:n] {
 		k := 1 + r.Intn(3)
+		if r.Intn(12) == 0 {
+			k = 0 // an empty first set
+		}
 		bs := make([]string, k)
 		for i := range bs {
-			bs[i] = pick(isLate[nm] > 0)
+			bs[i] = pick(isLate[nm] > 0, 1)
 			if bs[i] == "reg" && isLate[nm] == 0 {
 				k0++
 			}
 		}
 		cfg.Beh[nm] = bs
+		// the second set: mostly empty at the start
+		if r.Intn(3) == 0 {
+			b2 := make([]string, 1+r.Intn(2))
+			for i := range b2 {
+				b2[i] = pick(isLate[nm] > 0, 2)
+			}
+			cfg.Beh2[nm] = b2
+		}
+		// the root expression itself
+		switch x := r.Intn(40); {
+		case x == 0:
+			cfg.Rb[nm] = "bare"
+		case x == 1:
+			cfg.Rb[nm] = oneOf("vempty", "vempty", "vnil")
+		case x == 2:
+			cfg.Rb[nm] = oneOf("perr", "vrec", "verr", "vboth", "ferr")
+		}
 	}
 	if nlate > 0 && k0 == 0 {
 		first := cfg.Reg[r.Intn(len(cfg.Reg))]
+		if len(cfg.Beh[first]) == 0 {
+			cfg.Beh[first] = []string{"plain"}
+		}
 		cfg.Beh[first][r.Intn(len(cfg.Beh[first]))] = "reg"
 		k0 = 1
 	}
